@@ -22,11 +22,11 @@ N14n == <<"k", "z">>
 K14n == [k |-> "const", z |-> "constnone"]
 N12c == <<"m", "z">>
 K12c == [m |-> "mut_shared", z |-> "constnone"]
-A12 == {"readns", "instparam", "classset", "new", "instset", "instmeta", "mutate", "skipref"}
+A12 == {"readns", "instparam", "classset", "new", "instset", "instmeta", "mutate", "skipref", "gen"}
 A12sel == {"instparam", "classset", "new", "instset", "objsappend", "readns"}
 A13d == {"readns", "classset", "addparam", "new", "instset", "classmeta"}
 A13 == {"readns", "instparam", "classset", "addparam", "new", "instset"}
-A14 == {"classset", "new", "instset", "edit", "instparam"}
+A14 == {"classset", "new", "instset", "edit", "instparam", "instconst"}
 A02 == {"classset", "new", "instset", "instparam", "readns"}
 AAll == A12 \cup A13 \cup A14 \cup A12sel \cup A13d
 ====
